@@ -338,13 +338,57 @@ class ZoneFn:
             t = pzf.term_op(caps[int(k)])
             return pzf.upper_bound(t, cb) if t is not None else None
         # element parameter of a closure handed to an iterator adaptor over a container
-        if sym == 'p2' and consumer is not None:
+        if consumer is not None:
             bi, t = consumer
-            if (t.get('callee') or '').startswith('std::iter::Iterator::') and t['args']:
-                es = pzf.elem_sym_of_iter(t['args'][0])
-                if es is not None:
-                    return pzf.upper_bound((es, 0), bi)
+            es = self.closure_elem_sym(sym)
+            if es is not None:
+                return pzf.upper_bound((es, 0), bi)
         return None
+
+    def closure_elem_sym(self, sym):
+        """`elem:<container>` (in the creating body's terms) a closure's element symbol stands for: `p2` for map / any / all / find ...,
+        `p3` for fold (after the accumulator), `p<k>.<n>` for the n-th component of a zip element"""
+        ctx = self.closure_ctx()
+        if ctx is None or ctx[3] is None:
+            return None
+        pzf, cb, caps, (bi, t) = ctx
+        cal = t.get('callee') or ''
+        if not cal.startswith('std::iter::Iterator::') or not t['args']:
+            return None
+        want = 3 if cal.endswith(('::fold', '::try_fold')) else 2
+        base, _, comp = sym.partition('.')
+        if base != 'p%d' % want:
+            return None
+        comps = pzf.iter_components(t['args'][0])
+        if comps is None:
+            return None
+        if comp == '':
+            return pzf.elem_sym_of_desc(comps[0]) if len(comps) == 1 and comps[0] is not None else None
+        if comp.isdigit() and len(comps) > 1 and int(comp) < len(comps) and comps[int(comp)] is not None:
+            return pzf.elem_sym_of_desc(comps[int(comp)])
+        return None
+
+    def iter_components(self, op, depth=0):
+        """containers behind an iterator operand: [c] for a plain iteration, [c1, c2] for c1.iter().zip(c2) (None where unknown)"""
+        if op['k'] not in ('copy', 'move') or depth > 10:
+            return None
+        pl = op['pl']
+        if not any(p['k'] != 'deref' for p in pl.get('p', [])):
+            d = self.single_def(pl['l'])
+            if d is not None and d[0] == 'call' and d[2]['args']:
+                cal = d[2].get('callee') or ''
+                if cal in ('std::iter::Iterator::zip', 'std::iter::zip') and len(d[2]['args']) == 2:
+                    return [self.iter_container(d[2]['args'][0]), self.iter_container(d[2]['args'][1])]
+                if cal in ('std::iter::IntoIterator::into_iter', 'std::iter::Iterator::by_ref', 'std::iter::Iterator::rev', 'std::iter::Iterator::peekable'):
+                    return self.iter_components(d[2]['args'][0], depth + 1)
+            if d is not None and d[0] == 'assign' and not d[2]['dst'].get('p'):
+                rv = d[2]['rv']
+                if rv['k'] == 'use' and rv['op']['k'] in ('copy', 'move'):
+                    return self.iter_components(rv['op'], depth + 1)
+                if rv['k'] in ('ref', 'rawptr'):
+                    return self.iter_components({'k': 'copy', 'pl': rv['pl']}, depth + 1)
+        c = self.iter_container(op)
+        return [c] if c is not None else None
 
     def iter_container(self, op, depth=0):
         """descriptor of the container an iterator operand runs over (through iter / into_iter / copied / cloned / by_ref and borrows)"""
@@ -419,6 +463,67 @@ class ZoneFn:
                 return None
             if cal in ('core::slice::<impl [T]>::chunks_exact',) and len(x['args']) == 2:
                 return None
+        return None
+
+    def slice_origin(self, d, depth=0):
+        """(root descriptor, start, end) of a slice value inside the container it was cut from, through any nesting of `[a..b]`, `get(a..b)`,
+        `split_at(k)` / `split_first()` pieces and same-length copies; positions are terms relative to the root."""
+        if d is None or depth > 12:
+            return None
+        k = d[0]
+        if k == 'cont':
+            return (d, (None, 0), self.len_of_desc(d))
+        if k == 'same':
+            return self.slice_origin(d[1], depth + 1)
+        if k == 'sub':
+            _, base, rng, l = d
+            o = self.slice_origin(base, depth + 1)
+            if o is None:
+                return None
+            root, s0, e0 = o
+            rk, st, en, _ = rng
+            if rk == 'range':
+                return (root, self._tsum(s0, st), self._tsum(s0, en))
+            if rk == 'from':
+                return (root, self._tsum(s0, st), e0)
+            if rk == 'to':
+                return (root, s0, self._tsum(s0, en))
+            if rk == 'full':
+                return o
+            return None
+        if k == 'callfield':
+            _, l, t, path, ty = d
+            cal = t.get('callee') or ''
+            if cal.startswith('core::slice::<impl [T]>::split_') and t['args'] and t['args'][0]['k'] in ('copy', 'move') and len(path) == 1:
+                o = self.slice_origin(self.desc_place(t['args'][0]['pl']), depth + 1)
+                if o is None:
+                    return None
+                root, s0, e0 = o
+                short = cal.split('::')[-1]
+                if short in ('split_first', 'split_first_mut') and path == ('1',):
+                    return (root, self._tsum(s0, (None, 1)), e0)
+                if short in ('split_last', 'split_last_mut') and path == ('1',):
+                    return (root, s0, tadd(e0, -1) if e0 is not None else None)
+                if short in ('split_at', 'split_at_mut', 'split_at_checked') and len(t['args']) == 2:
+                    kt = self.term_op(t['args'][1])
+                    if path == ('0',):
+                        return (root, s0, self._tsum(s0, kt))
+                    if path == ('1',):
+                        return (root, self._tsum(s0, kt), e0)
+            return (d, (None, 0), self.len_of_desc(d))
+        if k == 'call':
+            return (d, (None, 0), self.len_of_desc(d))
+        return None
+
+    @staticmethod
+    def _tsum(a, b):
+        """sum of two terms when at most one of them is symbolic"""
+        if a is None or b is None:
+            return None
+        if a[0] is None:
+            return (b[0], a[1] + b[1])
+        if b[0] is None:
+            return (a[0], a[1] + b[1])
         return None
 
     def elem_sym_of_desc(self, d):
@@ -505,6 +610,12 @@ class ZoneFn:
             fs = [p for p in ps if p['k'] == 'field']
             if len(fs) == 1 and all(p['k'] in ('field', 'deref') for p in ps) and fs[0]['n'].isdigit():
                 return ('cap%s' % fs[0]['n'], 0)
+        # component of a tuple element handed to a closure by zip / enumerate: (_k.n) or (*(_k.n))
+        if self.body.kind == 'Closure' and pl['l'] >= 2 and self.fd.is_param(pl['l']):
+            fs = [p for p in ps if p['k'] == 'field']
+            if len(fs) == 1 and all(p['k'] in ('field', 'deref') for p in ps) and fs[0]['n'].isdigit() \
+                    and str(fs[0].get('ty', '')).lstrip('&').strip() in ('usize', 'u64', 'u32'):
+                return ('p%d.%s' % (pl['l'], fs[0]['n']), 0)
         if len(ps) == 1 and ps[0]['k'] == 'field' and ps[0]['n'] == '0':
             d = self.single_def(pl['l'])
             if d and d[0] == 'assign' and d[2]['rv']['k'] == 'binop':
@@ -538,8 +649,10 @@ class ZoneFn:
                             a = self.term_op(o[1]['args'][0])
                             if a is not None:
                                 u = min(UMAX, self.sym_ub(a[0]) + a[1]) if a[0] is not None else a[1]
-                elif rv['k'] == 'binop':
-                    t = self._binop_term(('ub', l, bi), rv, bi) if False else None
+                elif rv['k'] == 'binop' and rv['op'].replace('WithOverflow', '').replace('Unchecked', '') in ('Div', 'Rem', 'Sub', 'Add', 'Mul'):
+                    t = self._binop_term(l, rv, bi)
+                    if t is not None:
+                        u = min(UMAX, self.sym_ub(t[0]) + t[1]) if t[0] is not None else t[1]
             elif kind == 'call' and not x['dst'].get('p'):
                 cal = x.get('callee') or ''
                 if cal in LEN_CALLS:
@@ -658,6 +771,12 @@ class ZoneFn:
                 self.global_facts.append((None, r, (None, ub)))
                 self.sym_bound[r[0]] = ub
             self.global_facts.append((bi, r, a))          # x / c <= x,  x % c <= x
+            self.sym_le[r[0]] = a
+            return r
+        if base in ('Div', 'Rem') and a is not None:
+            # divisor not a known constant (e.g. a constant of another crate): still x / d <= x and x % d <= x for d >= 1
+            r = self._opaque(l)
+            self.global_facts.append((bi, r, a))
             self.sym_le[r[0]] = a
             return r
         if base == 'Mul' and a is not None and b is not None and (a[0] is None) != (b[0] is None):
@@ -926,6 +1045,23 @@ class ZoneFn:
                 return self.za.vec_fixed_len(self, l)
             if (t.get('callee') or '').endswith('vec::from_elem') and len(t['args']) == 2:
                 return self.term_op(t['args'][1])      # vec![x; n] that is never grown or shrunk
+            if (t.get('callee') or '').endswith(('slice::<impl [T]>::into_vec', 'box_assume_init_into_vec_unsafe')) and t['args'] \
+                    and t['args'][0]['k'] in ('copy', 'move'):
+                # vec![a, b, c] = <[_]>::into_vec(Box::new([a, b, c])) (or its MaybeUninit form): the array length, seen through the unsizing cast
+                import re as _re
+                al = t['args'][0]['pl']['l']
+                for _ in range(4):
+                    n = parse_array_len(self.body.local_ty(al))
+                    if n is not None and n.isdigit():
+                        return (None, int(n))
+                    m = _re.search(r'\[[^\[\]]*; (\d+)\]>+$', self.body.local_ty(al))
+                    if m:
+                        return (None, int(m.group(1)))
+                    d = self.single_def(al)
+                    if d and d[0] == 'assign' and d[2]['rv']['k'] in ('cast', 'use') and d[2]['rv']['op']['k'] in ('copy', 'move'):
+                        al = d[2]['rv']['op']['pl']['l']
+                        continue
+                    break
             if (t.get('callee') or '') == 'std::iter::Iterator::collect' and t['args']:
                 n = self.iter_len(t['args'][0])        # one element per element of the source (length-preserving adaptors only)
                 if n is not None:
@@ -939,6 +1075,20 @@ class ZoneFn:
             return r
         if k == 'callfield':
             _, l, t, path, ty = d
+            cal = t.get('callee') or ''
+            if cal.startswith('core::slice::<impl [T]>::split_') and t['args'] and t['args'][0]['k'] in ('copy', 'move') and len(path) == 1:
+                # the pieces of split_first / split_last / split_at(k)
+                base = self.len_of_place(t['args'][0]['pl'])
+                short = cal.split('::')[-1]
+                if base is not None:
+                    if short in ('split_first', 'split_last', 'split_first_mut', 'split_last_mut') and path == ('1',):
+                        return tadd(base, -1)
+                    if short in ('split_at', 'split_at_mut', 'split_at_checked') and len(t['args']) == 2:
+                        kt = self.term_op(t['args'][1])
+                        if kt is not None and path == ('0',):
+                            return kt
+                        if kt is not None and path == ('1',):
+                            return tsub(base, kt)
             r = self.za.call_retlen(self, t, path)
             if r is None and l not in self.mut_roots and ty.startswith(('std::vec::Vec<', '&[', '[')):
                 sym = 'len:_%d%s' % (l, ''.join('.' + x for x in path))
@@ -1016,6 +1166,27 @@ class ZoneFn:
         call = o[1]
         from flow import local_target
         tgt = local_target(self.za.eng, call)
+        if tgt is None and (call.get('callee') or '') in ('core::slice::<impl [T]>::get', 'core::slice::<impl [T]>::get_mut') and len(call['args']) == 2 \
+                and call['args'][0]['k'] in ('copy', 'move'):
+            # slice.get(range / index) succeeded: the range / index is inside the slice
+            ln = self.len_of_place(call['args'][0]['pl'])
+            rng = self._range_arg(call['args'][1])
+            if ln is None:
+                return None
+            if rng is not None:
+                rk, s0, e0, _ = rng
+                out = []
+                if rk == 'range' and s0 is not None and e0 is not None:
+                    out = [(s0, e0), (e0, ln)]
+                elif rk == 'from' and s0 is not None:
+                    out = [(s0, ln)]
+                elif rk == 'to' and e0 is not None:
+                    out = [(e0, ln)]
+                return out or None
+            ix = self.term_op(call['args'][1])
+            if ix is not None:
+                return [(tadd(ix, 1), ln)]
+            return None
         if tgt is None and (call.get('callee') or '') in ('std::convert::TryFrom::try_from', 'std::convert::TryInto::try_into'):
             # slice -> array conversion succeeds iff the lengths agree
             import re
